@@ -942,7 +942,7 @@ pub fn check_c05(tier: &str) -> i32 {
     rep.phase("client role: stream cut by the end of a connection (honest exchange on the next one) or interleaved with handle calls", st, json!({}));
     // over real sockets: the reply stream of the production server under back-pressure (the
     // transport arms of `PhysLayer::write` for TCP and TLS are not reached by the scripted transport)
-    let st = crate::checks::sessions::backpressure_stream_phase(thorough);
+    let st = crate::checks::sessions::backpressure_stream_phase(thorough, 4);
     rep.phase("production TCP / TLS server: reply stream to a peer that pipelines requests and reads slowly, in pieces", st, json!({"pipelined_requests": if thorough { 12000 } else { 2500 }, "cases": 16}));
     rep.require_class("reply-stream-under-back-pressure:tcp");
     rep.require_class("reply-stream-under-back-pressure:tls");
